@@ -20,6 +20,9 @@ ROOT = os.path.dirname(os.path.dirname(os.path.abspath(__file__)))
 
 # mutants known to be equivalent with respect to the property (explained in DESIGN.md 7)
 EQUIVALENT = {
+    "c01-no-bare-lf-check": "a bare LF inside a header line is still refused by HEADER_FIELD_RE (anchored with \\Z since the F-1 fix): 400 either way",
+    "c01-cl-not-singleton": "repeated Content-Length values are joined to '5, 5', which the digit gate refuses: 400 either way",
+    "c10-star-for-plus": "an empty Content-Length passes the gate but int('') raises ValueError, which the F-2 fix turns into the same 400",
     "c11-readable-ignores-cwf": "received() still refuses the data under the lock; nothing is executed",
     "c12-no-connected-recheck": "handle_close() zeroes total_outbufs_len, so the loop condition ends anyway",
     "c13-recv-error-unhandled": "the error reaches wasyncore's catch-all, which closes the channel on the I/O thread as well",
